@@ -6,10 +6,30 @@
    ([ref_enc], [ref_dec]).  No proofs here: the model must still run (vm_compute
    correspondence against /repo) when a proof breaks.  Proofs: TyProofs.v. *)
 From Coq Require Import List String Ascii ZArith Bool Lia.
-From Verif Require Import Core.
+From Verif Require Import Core TupleIdx.
 Import ListNotations.
 Open Scope string_scope.
 Open Scope Z_scope.
+
+(* collection classes whose instances are modelled as a box around a list / dict:
+   [VObj (box_name b) [("", inner)]] (the class names contain a dot, so no dataclass is mistaken for one) *)
+Inductive box := BDeque | BOrdered | BDefault | BProxy | BCounter | BChain.
+Definition box_name (b: box) : string :=
+  match b with
+  | BDeque => "collections.deque" | BOrdered => "collections.OrderedDict" | BDefault => "collections.defaultdict"
+  | BProxy => "types.MappingProxyType" | BCounter => "collections.Counter" | BChain => "collections.ChainMap" end.
+(* A ChainMap always has at least one map: ChainMap( *[] ) is ChainMap({}).  That canonical empty ChainMap
+   (maps == [{}]) is REPRESENTED by the empty list of maps (the harness emits it so), hence the content [[{}]]
+   built by the unpacker is normalised to [[]] and the packer turns the content [[]] into the wire form [[{}]].
+   The factory of a defaultdict is not part of the value (Python's == ignores it as well). *)
+Definition is_chain (b: box) : bool := match b with BChain => true | _ => false end.
+Definition box_val (b: box) (inner: pv) : pv :=
+  VObj (box_name b) [("", match b, inner with BChain, VList [VDict []] => VList [] | _, _ => inner end)].
+(* the content [[{}]] is never the representation of a ChainMap (it is normalised to [[]]) *)
+Definition chain_canon (b: box) (inner: pv) : bool :=
+  negb (is_chain b && match inner with VList [VDict []] => true | _ => false end).
+Definition chain_empty (chain: bool) (inner: pv) : bool :=
+  chain && match inner with VList [] => true | _ => false end.
 
 (* ------------------------------------------------------------------ *)
 (* type grammar covered by the type-level theorems *)
@@ -22,11 +42,18 @@ Inductive sty :=
 | SSet (frozen: bool) (t: sty)
 | STupleVar (t: sty)
 | STupleFix (ts: list sty)
+| STupleU (pre: list sty) (mid: sty) (post: list sty)   (* Tuple[pre..., Unpack[mid], post...], mid = Tuple[t, ...] or Tuple[t1, ..., tk] *)
 | SDict (kt vt: sty)
 | SOpt (t: sty)
 | SData (c: string)
 | SNamed (c: string)                   (* typing.NamedTuple class, default as_list form *)
-| STyped (c: string).                  (* TypedDict class *)
+| STyped (c: string)                   (* TypedDict class *)
+| SSeq (t: sty)                        (* Sequence / MutableSequence: a list, always built by comprehension *)
+| SMap (kt vt: sty)                    (* Mapping / MutableMapping: a dict, always built by comprehension *)
+| SBox (b: box) (t: sty).              (* a collection class wrapped around the list / dict the inner type describes:
+                                          Deque[T] = SBox BDeque (SSeq T), OrderedDict[K,V] = SBox BOrdered (SMap K V),
+                                          DefaultDict / MappingProxyType likewise, Counter[K] = SBox BCounter (SMap K int),
+                                          ChainMap[K,V] = SBox BChain (SSeq (SMap K V)) (wire form: the list of its maps) *)
 
 (* one class table for dataclasses, NamedTuples and TypedDicts; a class is looked up by kind
    and name.  [sf_default]: dataclass field default / NamedTuple field default (ignored for a
@@ -76,9 +103,23 @@ Inductive penc :=
 | ECopyDict
 | EDictComp (ke ve: penc)               (* {ke: ve for key, value in x.items()} *)
 | ETupleFix (es: list penc)             (* [e0(x[0]), e1(x[1]), ...] *)
+| ETupleU (plan: list aidx) (pre: list penc) (mid: penc) (post: list penc)
+                                        (* [e0(x[0]), ..., *emid(x[i:j]), ..., ek(x[-1])] with the index / slice plan of arg_indexes *)
 | EData (c: string)                     (* dataclass packer (plain Config) *)
 | ENamed (c: string)                    (* [e0(value[0]), e1(value[1]), ...] over the NamedTuple fields *)
-| ETyped (c: string).                   (* d = {}; d[k] = e(value[k]) for required keys; optional keys when present *)
+| ETyped (c: string)                    (* d = {}; d[k] = e(value[k]) for required keys; optional keys when present *)
+| EBox (chain: bool) (e: penc).         (* e applied to the deque / mapping object itself ("for value in x", "x.items()", "x.maps") *)
+
+(* the index / slice descriptors computed by the arg_indexes loop of pack_tuple / unpack_tuple for
+   [u] plain arguments, one unpacked argument, [m] plain arguments.  Hand-written closed form;
+   TyK7.v proves it equal to the output of the loop as translated from /repo on every run
+   (kernel K7): [arg_indexes (repeat false u ++ true :: repeat false m) = Some (tu_plan u m)]. *)
+Definition tu_slice_hi (n i: Z) : option Z :=
+  if n =? 1 then None else if i <? n - 1 then Some (i + 1 - n) else None.
+Definition tu_plan (u m: nat) : list aidx :=
+  let n := Z.of_nat (u + 1 + m) in
+  (map AI (zrange 0 (Z.of_nat u)) ++ [ASl (Z.of_nat u) (tu_slice_hi n (Z.of_nat u))] ++
+   map (fun j => AI (j - n)) (zrange (Z.of_nat u + 1) n))%list.
 
 Definition is_id (e: penc) : bool := match e with EId => true | _ => false end.
 
@@ -99,11 +140,16 @@ Fixpoint cp (cbn: bool) (t: sty) {struct t} : penc :=
   | SSet _ t' => seq_expr false (cp true t')
   | STupleVar t' => EListComp (cp true t')
   | STupleFix ts => ETupleFix (map (cp true) ts)
+  | STupleU pre mid post =>
+      ETupleU (tu_plan (List.length pre) (List.length post)) (map (cp true) pre) (cp true mid) (map (cp true) post)
   | SDict kt vt => map_expr (cp true kt) (cp true vt)
   | SOpt t' => let e := cp cbn t' in if cbn then EOpt e else e
   | SData c => EData c
   | SNamed c => ENamed c
   | STyped c => ETyped c
+  | SSeq t' => EListComp (cp true t')                      (* origin is not list: no .copy() *)
+  | SMap kt vt => EDictComp (cp true kt) (cp true vt)      (* origin is not dict: no .copy() *)
+  | SBox b t' => EBox (is_chain b) (cp true t')
   end.
 
 (* field-level nullability (builder.py): Optional / Any / None annotation or default None *)
@@ -206,6 +252,107 @@ Definition td_nondict (konst: sfield -> option pv) (fds: list sfield) : res pv :
   r <- td_go (fun (_: sfield) (_: unit) => Exn XTypeError) konst XTypeError [] (td_order fds) ;;
   if existsb (fun f => f.(sf_opt)) fds then Exn XAttributeError else Ok (VDict r).
 
+Section OMapM.
+  Context {A B: Type} (f: A -> option B).
+  Fixpoint omapM (l: list A) : option (list B) :=
+    match l with
+    | [] => Some []
+    | x :: r => match f x with
+                | Some y => match omapM r with Some ys => Some (y :: ys) | None => None end
+                | None => None end
+    end.
+End OMapM.
+
+(* ------------------------------------------------------------------ *)
+(* tuples with an unpacked segment: positions read through index / slice descriptors.
+   [items = None]: the value is not subscriptable (only constant positions survive). *)
+Section TuWalk.
+  Context {T X: Type}.
+  Variable run : T -> X -> res pv.
+  Variable konst : T -> option pv.
+  Variable tail : list T -> res (list pv).       (* a fixed segment longer than its slice *)
+
+  Definition tu_at (items: option (list X)) (a: aidx) (d: T) : res pv :=
+    match konst d with
+    | Some c => Ok c
+    | None =>
+        match items with
+        | None => Exn XTypeError
+        | Some l =>
+            match a with
+            | AI i => match nth_signed l i with Some x => run d x | None => Exn XIndexError end
+            | ASl _ _ => Exn XTypeError          (* descriptor of the wrong shape: never produced by [tu_plan] *)
+            end
+        end
+    end.
+
+  Fixpoint tu_ones (items: option (list X)) (plan: list aidx) (ds: list T) {struct ds} : res (list pv) :=
+    match ds, plan with
+    | [], [] => Ok []
+    | d :: ds', a :: plan' =>
+        match tu_at items a d with
+        | Ok y => match tu_ones items plan' ds' with Ok ys => Ok (y :: ys) | Exn e => Exn e end
+        | Exn e => Exn e end
+    | _, _ => Exn XTypeError
+    end.
+
+  (* exact-length positional walk (the documented form: one item per type) *)
+  Fixpoint pos_walk (ds: list T) (xs: list X) {struct ds} : res (list pv) :=
+    match ds, xs with
+    | [], [] => Ok []
+    | d :: ds', x :: xs' =>
+        match (match konst d with Some c => Ok c | None => run d x end) with
+        | Ok y => match pos_walk ds' xs' with Ok ys => Ok (y :: ys) | Exn e => Exn e end
+        | Exn e => Exn e end
+    | _, _ => Exn XIndexError
+    end.
+
+  (* a fixed tuple read from a slice: surplus ignored, shortage = [tail] *)
+  Fixpoint fix_walk (ds: list T) (l: list X) {struct ds} : res (list pv) :=
+    match ds, l with
+    | [], _ => Ok []
+    | _ :: _, [] => tail ds
+    | d :: ds', x :: l' =>
+        match run d x with
+        | Ok y => match fix_walk ds' l' with Ok ys => Ok (y :: ys) | Exn e => Exn e end
+        | Exn e => Exn e end
+    end.
+
+  (* the unpacked segment applied to its slice *)
+  Definition mid_var (u: T) (sl: option (list X)) : res (list pv) :=
+    match sl with Some s => mapM (run u) s | None => Exn XTypeError end.
+  Definition mid_fix (us: list T) (sl: option (list X)) : res (list pv) :=
+    match omapM konst us with
+    | Some cs => Ok cs                                   (* constant segment ("*()" is dropped): no slicing *)
+    | None => match sl with Some s => fix_walk us s | None => Exn XTypeError end
+    end.
+
+  (* generated form: [u0(x[i0]), ..., *umid(x[i:j]), ..., uk(x[ik])] *)
+  Definition tu_walk (items: option (list X)) (plan: list aidx) (pre post: list T)
+                     (mid: option (list X) -> res (list pv)) : res (list pv) :=
+    let np := List.length pre in
+    a <- tu_ones items (firstn np plan) pre ;;
+    m <- match nth_error plan np with
+         | Some (ASl i j) => mid (option_map (fun l => slice_list l i j) items)
+         | _ => Exn XTypeError end ;;
+    b <- tu_ones items (skipn (S np) plan) post ;;
+    Ok (a ++ m ++ b)%list.
+
+  (* documented form, for a sequence with at least as many items as head + tail: the head items,
+     what lies between head and tail for the unpacked segment, the tail items *)
+  Definition tu_split (l: list X) (pre post: list T) (mid: option (list X) -> res (list pv)) : res (list pv) :=
+    let np := List.length pre in
+    let ns := List.length post in
+    let L := List.length l in
+    a <- pos_walk pre (firstn np l) ;;
+    m <- mid (Some (firstn (L - np - ns) (skipn np l))) ;;
+    b <- pos_walk post (skipn (L - ns) l) ;;
+    Ok (a ++ m ++ b)%list.
+End TuWalk.
+
+(* the documented reference rejects a sequence shorter than head + tail *)
+Definition XTooFew : exn := XOther "too few items".
+
 (* fuel exhausted while a str input descends through NamedTuple classes (see [uk_str]) *)
 Definition XRecursion : exn := XOther "RecursionError".
 
@@ -248,6 +395,16 @@ Section Run.
                       end) es l ;;
               Ok (VList r)
           | _ => Exn XTypeError end
+      | ETupleU plan pre emid post =>
+          let run := fun (e': penc) (dx: penc -> res pv) => dx e' in
+          let items : option (list (penc -> res pv)) :=
+              match v with VTuple l | VList l => Some (map (fun x => pk x) l) | _ => None end in
+          r <- tu_walk run (fun _ => None) items plan pre post
+                 (match emid with
+                  | EListComp e' => mid_var run e'
+                  | ETupleFix es => mid_fix run (fun _ => None) (fun _ => Exn XIndexError) es
+                  | _ => fun _ => Exn XTypeError end) ;;
+          Ok (VList r)
       | EData c =>
           match v with
           | VObj c' fs =>
@@ -297,6 +454,12 @@ Section Run.
               | _ => Exn XTypeError
               end
           end
+      | EBox ch e' =>
+          (* iterating a deque / x.items() of a dict subclass or proxy / x.maps: the comprehension runs on the content
+             (x.maps of the canonical empty ChainMap is [{}]) *)
+          match v with
+          | VObj _ [(_, inner)] => if chain_empty ch inner then Ok (VList [VDict []]) else pk inner e'
+          | _ => Exn XAttributeError end
       end.
 
   (* ---------------------------------------------------------------- *)
@@ -308,7 +471,7 @@ Section Run.
       | SBytes _ => match v with VBytes _ b => Ok (VStr (P.(p_b64enc) b)) | _ => Exn XTypeError end
       | SLeaf _ => match v with VLeaf k w => Ok (P.(p_render) k w) | _ => Exn XAttributeError end
       | SEnum _ => match v with VEnum en mn => lift (P.(p_enum_value) en mn) | _ => Exn XAttributeError end
-      | SList t' | SSet _ t' | STupleVar t' =>
+      | SList t' | SSet _ t' | STupleVar t' | SSeq t' =>
           match v with
           | VList l | VTuple l | VSet _ l => r <- mapM (fun x => ref_enc x t') l ;; Ok (VList r)
           | _ => Exn XTypeError end
@@ -323,7 +486,21 @@ Section Run.
                       end) ts l ;;
               Ok (VList r)
           | _ => Exn XTypeError end
-      | SDict kt vt =>
+      | STupleU pre mid post =>
+          (* the head items, the items of the unpacked segment, the tail items, each converted by its type *)
+          match v with
+          | VTuple l | VList l =>
+              if (List.length l <? List.length pre + List.length post)%nat then Exn XIndexError
+              else
+                let run := fun (t': sty) (dx: sty -> res pv) => dx t' in
+                r <- tu_split run (fun _ => None) (map (fun x => ref_enc x) l) pre post
+                       (match mid with
+                        | STupleVar t' => mid_var run t'
+                        | STupleFix ts => mid_fix run (fun _ => None) (fun _ => Exn XIndexError) ts
+                        | _ => fun _ => Exn XTypeError end) ;;
+                Ok (VList r)
+          | _ => Exn XTypeError end
+      | SDict kt vt | SMap kt vt =>
           match v with
           | VDict kvs =>
               r <- mapM (fun p => match p with (k, x) =>
@@ -381,6 +558,11 @@ Section Run.
               | _ => Exn XTypeError
               end
           end
+      | SBox b t' =>
+          (* the basic form of the list / dict the collection holds *)
+          match v with
+          | VObj _ [(_, inner)] => if chain_empty (is_chain b) inner then Ok (VList [VDict []]) else ref_enc inner t'
+          | _ => Exn XAttributeError end
       end.
 
   (* ---------------------------------------------------------------- *)
@@ -396,10 +578,13 @@ Section Run.
   | USetComp (frozen: bool) (u: pdec)
   | UTupleVar (u: pdec)
   | UTupleFix (us: list pdec)           (* tuple([u0(v[0]), ...]) *)
+  | UTupleU (plan: list aidx) (pre: list pdec) (mid: pdec) (post: list pdec)
+                                        (* tuple([u0(v[0]), ..., *umid(v[i:j]), ..., uk(v[-1])]) *)
   | UDictComp (ku vu: pdec)
   | UData (c: string)
   | UNamed (c: string)                  (* C(u0(value[0]), ...) / the try-append-except IndexError function when C has defaults *)
-  | UTyped (c: string).                 (* d = {}; d[k] = u(value[k]) ...; key_value = value.get(k, MISSING) ... *)
+  | UTyped (c: string)                  (* d = {}; d[k] = u(value[k]) ...; key_value = value.get(k, MISSING) ... *)
+  | UBox (b: box) (u: pdec).            (* collections.deque(u) / OrderedDict(u) / Counter(u) / defaultdict(T, u) / MappingProxyType(u) / ChainMap( *u ) *)
 
   Fixpoint cu (cbn: bool) (t: sty) {struct t} : pdec :=
     match t with
@@ -413,11 +598,16 @@ Section Run.
     | SSet fr t' => USetComp fr (cu true t')
     | STupleVar t' => UTupleVar (cu true t')
     | STupleFix ts => UTupleFix (map (cu true) ts)
+    | STupleU pre mid post =>
+        UTupleU (tu_plan (List.length pre) (List.length post)) (map (cu true) pre) (cu true mid) (map (cu true) post)
     | SDict kt vt => UDictComp (cu true kt) (cu true vt)
     | SOpt t' => let u := cu cbn t' in if cbn then UOpt u else u
     | SData c => UData c
     | SNamed c => UNamed c
     | STyped c => UTyped c
+    | SSeq t' => UListComp (cu true t')
+    | SMap kt vt => UDictComp (cu true kt) (cu true vt)
+    | SBox b t' => UBox b (cu true t')
     end.
 
   Definition coerce_s (s: scalar) (v: pv) : res pv :=
@@ -436,13 +626,36 @@ Section Run.
     | SNone => Ok VNone
     end.
 
-  (* a fixed tuple whose remaining positions are all None-typed (or empty-tuple-typed) does not
-     read the missing items: the generated expression for such a position is a constant *)
-  Definition const_dec (u: pdec) : option pv :=
-    match u with
-    | UScalar SNone => Some VNone           (* expression "None" *)
-    | UTupleFix [] => Some (VTuple [])      (* expression "()" *)
-    | _ => None end.
+  (* constant expressions: the generated unpacker expression of a position does not mention its
+     input, so the item / key is never read -- "None" for NoneType, "tuple([c0, c1, ...])" resp. "()"
+     for a fixed tuple of constants, "C(c0, c1, ...)" for a NamedTuple class WITHOUT defaults all
+     of whose fields are constants (with defaults the expression is a helper call on value[i];
+     a TypedDict always is a method call on value[...]; Optional[...] tests value[i]).  Nested
+     arbitrarily, through the class table: fuel as in [uk_str], started with [List.length E]. *)
+  Fixpoint const_dec_n (n: nat) {struct n} : pdec -> option pv :=
+    fix on_u (u: pdec) {struct u} : option pv :=
+      match u with
+      | UScalar SNone => Some VNone
+      | UTupleFix us => match omapM on_u us with Some cs => Some (VTuple cs) | None => None end
+      | UTupleU _ pre umid post =>
+          match omapM on_u pre, (match umid with UTupleFix us => omapM on_u us | _ => None end), omapM on_u post with
+          | Some a, Some m, Some b => Some (VTuple (a ++ m ++ b)%list)
+          | _, _, _ => None end
+      | UNamed c =>
+          match n with
+          | O => None
+          | S n' =>
+              match sfind E KNamed c with
+              | None => None
+              | Some k =>
+                  if has_default k.(sc_fields) then None
+                  else match omapM (fun f => const_dec_n n' (cu true f.(sf_ty))) k.(sc_fields) with
+                       | Some cs => Some (VNT c cs)
+                       | None => None end
+              end
+          end
+      | _ => None end.
+  Definition const_dec (u: pdec) : option pv := const_dec_n (List.length E) u.
   Fixpoint none_tail (us: list pdec) : res (list pv) :=
     match us with
     | [] => Ok []
@@ -481,6 +694,13 @@ Section Run.
                 | u' :: us', x :: l' => y <- on_u u' x ;; ys <- go us' l' ;; Ok (y :: ys)
                 end) us (utf8_chars s) ;;
         Ok (VTuple r)
+    | UTupleU plan pre umid post =>
+        r <- tu_walk on_u const_dec (Some (utf8_chars s)) plan pre post
+               (match umid with
+                | UTupleVar u' => mid_var on_u u'
+                | UTupleFix us => mid_fix on_u const_dec none_tail us
+                | _ => fun _ => Exn XTypeError end) ;;
+        Ok (VTuple r)
     | UDictComp _ _ => Exn XAttributeError
     | UData c => match sfind E KData c with
                  | Some _ => Exn XValueError       (* a str is not a mapping *)
@@ -501,6 +721,7 @@ Section Run.
         match sfind E KTyped c with
         | None => Exn XAttributeError
         | Some k => td_nondict konst_u k.(sc_fields) end
+    | UBox b u' => r <- on_u u' s ;; Ok (box_val b r)
     end.
 
   Fixpoint uk (d: pv) {struct d} : pdec -> res pv :=
@@ -545,6 +766,20 @@ Section Run.
               Ok (VTuple r)
           | VStr s => uk_str (List.length E) u s
           | _ => r <- none_tail us ;; Ok (VTuple r)     (* only constant positions never index the value *)
+          end
+      | UTupleU plan pre umid post =>
+          match d with
+          | VStr s => uk_str (List.length E) u s
+          | _ =>
+              let run := fun (u': pdec) (dx: pdec -> res pv) => dx u' in
+              let items : option (list (pdec -> res pv)) :=
+                  match d with VList l | VTuple l => Some (map (fun x => uk x) l) | _ => None end in
+              r <- tu_walk run const_dec items plan pre post
+                     (match umid with
+                      | UTupleVar u' => mid_var run u'
+                      | UTupleFix us => mid_fix run const_dec none_tail us
+                      | _ => fun _ => Exn XTypeError end) ;;
+              Ok (VTuple r)
           end
       | UDictComp ku vu =>
           match d with
@@ -618,6 +853,7 @@ Section Run.
               | _ => td_nondict konst_u k.(sc_fields)
               end
           end
+      | UBox b u' => r <- on_u u' ;; Ok (box_val b r)
       end.
 
   (* ---------------------------------------------------------------- *)
@@ -625,11 +861,31 @@ Section Run.
      scalar, canonical concrete container with every element converted, surplus tuple
      items and unknown keys ignored; iteration semantics of foreign inputs (a str
      iterates its characters, a dict its keys). *)
-  Definition const_ty (t: sty) : option pv :=
-    match t with
-    | SNoneT => Some VNone
-    | STupleFix [] => Some (VTuple [])
-    | _ => None end.
+  (* types whose constructor takes no information from the input (see [const_dec_n]) *)
+  Fixpoint const_ty_n (n: nat) {struct n} : sty -> option pv :=
+    fix on_t (t: sty) {struct t} : option pv :=
+      match t with
+      | SNoneT => Some VNone
+      | STupleFix ts => match omapM on_t ts with Some cs => Some (VTuple cs) | None => None end
+      | STupleU pre mid post =>
+          match omapM on_t pre, (match mid with STupleFix ts => omapM on_t ts | _ => None end), omapM on_t post with
+          | Some a, Some m, Some b => Some (VTuple (a ++ m ++ b)%list)
+          | _, _, _ => None end
+      | SNamed c =>
+          match n with
+          | O => None
+          | S n' =>
+              match sfind E KNamed c with
+              | None => None
+              | Some k =>
+                  if has_default k.(sc_fields) then None
+                  else match omapM (fun f => const_ty_n n' f.(sf_ty)) k.(sc_fields) with
+                       | Some cs => Some (VNT c cs)
+                       | None => None end
+              end
+          end
+      | _ => None end.
+  Definition const_ty (t: sty) : option pv := const_ty_n (List.length E) t.
   Fixpoint none_tail_t (ts: list sty) : res (list pv) :=
     match ts with
     | [] => Ok []
@@ -640,8 +896,29 @@ Section Run.
 
   Definition konst_t (f: sfield) : option pv := const_ty f.(sf_ty).
 
+  (* Two readings of "tuple with an unpacked segment":
+     [strict = true]  the documented one: a sequence shorter than head + tail is an error
+                      ([XTooFew]); otherwise head items / middle / tail items ([tu_split]);
+     [strict = false] what the generated code does: every position is read through the index /
+                      slice plan, so a short sequence yields overlapping reads (known finding
+                      C03/unpacked-tuple-short-input).
+     The two agree wherever the strict one does not say [XTooFew] (TyProofs.strict_or_same). *)
+  Section Mode.
+  Variable strict : bool.
+
+  Definition tu_ref {X} (run: sty -> X -> res pv) (tail: list sty -> res (list pv)) (l: list X)
+                    (pre: list sty) (mid: sty) (post: list sty) : res (list pv) :=
+    let midf := match mid with
+                | STupleVar t' => mid_var run t'
+                | STupleFix ts => mid_fix run const_ty tail ts
+                | _ => fun _ => Exn XTypeError end in
+    if strict then
+      if (List.length l <? List.length pre + List.length post)%nat then Exn XTooFew
+      else tu_split run const_ty l pre post midf
+    else tu_walk run const_ty (Some l) (tu_plan (List.length pre) (List.length post)) pre post midf.
+
   (* fuel: as for [uk_str] *)
-  Fixpoint ref_dec_str (n: nat) {struct n} : sty -> string -> res pv :=
+  Fixpoint ref_dec_str_g (n: nat) {struct n} : sty -> string -> res pv :=
     fix on_t (t: sty) {struct t} : string -> res pv := fun s =>
     match t with
     | SAny => Ok (VStr s)
@@ -653,7 +930,7 @@ Section Run.
     | SBytes m => b <- lift (P.(p_b64dec) (VStr s)) ;; Ok (VBytes m b)
     | SLeaf k => w <- lift (P.(p_parse) k (VStr s)) ;; Ok (VLeaf k w)
     | SEnum e => mn <- lift (P.(p_enum_of) e (VStr s)) ;; Ok (VEnum e mn)
-    | SList t' => r <- mapM (on_t t') (utf8_chars s) ;; Ok (VList r)
+    | SList t' | SSeq t' => r <- mapM (on_t t') (utf8_chars s) ;; Ok (VList r)
     | SSet fr t' => r <- mapM (on_t t') (utf8_chars s) ;;
         if forallb hashable r then Ok (VSet fr (set_of_list r)) else Exn XTypeError
     | STupleVar t' => r <- mapM (on_t t') (utf8_chars s) ;; Ok (VTuple r)
@@ -665,7 +942,9 @@ Section Run.
                 | t' :: ts', x :: l' => y <- on_t t' x ;; ys <- go ts' l' ;; Ok (y :: ys)
                 end) ts (utf8_chars s) ;;
         Ok (VTuple r)
-    | SDict _ _ => Exn XAttributeError
+    | STupleU pre mid post =>
+        r <- tu_ref on_t none_tail_t (utf8_chars s) pre mid post ;; Ok (VTuple r)
+    | SDict _ _ | SMap _ _ => Exn XAttributeError
     | SOpt t' => on_t t' s
     | SData c => match sfind E KData c with
                  | Some _ => Exn XValueError
@@ -677,7 +956,7 @@ Section Run.
             match n with
             | O => Exn XRecursion
             | S n' =>
-                r <- nt_items (fun f x => ref_dec_str n' f.(sf_ty) x) konst_t
+                r <- nt_items (fun f x => ref_dec_str_g n' f.(sf_ty) x) konst_t
                               (nt_exhausted (has_default k.(sc_fields))) k.(sc_fields) (utf8_chars s) ;;
                 Ok (VNT c r)
             end
@@ -686,9 +965,10 @@ Section Run.
         match sfind E KTyped c with
         | None => Exn XAttributeError
         | Some k => td_nondict konst_t k.(sc_fields) end
+    | SBox b t' => r <- on_t t' s ;; Ok (box_val b r)
     end.
 
-  Fixpoint ref_dec (d: pv) {struct d} : sty -> res pv :=
+  Fixpoint ref_dec_g (d: pv) {struct d} : sty -> res pv :=
     fix on_t (t: sty) {struct t} : res pv :=
       match t with
       | SAny => Ok d
@@ -700,26 +980,26 @@ Section Run.
       | SBytes m => b <- lift (P.(p_b64dec) d) ;; Ok (VBytes m b)
       | SLeaf k => w <- lift (P.(p_parse) k d) ;; Ok (VLeaf k w)
       | SEnum e => mn <- lift (P.(p_enum_of) e d) ;; Ok (VEnum e mn)
-      | SList t' =>
+      | SList t' | SSeq t' =>
           match d with
-          | VList l | VTuple l | VSet _ l => r <- mapM (fun x => ref_dec x t') l ;; Ok (VList r)
-          | VDict kvs => r <- mapM (fun p => match p with (k, _) => ref_dec k t' end) kvs ;; Ok (VList r)
-          | VStr s => ref_dec_str (List.length E) t s
+          | VList l | VTuple l | VSet _ l => r <- mapM (fun x => ref_dec_g x t') l ;; Ok (VList r)
+          | VDict kvs => r <- mapM (fun p => match p with (k, _) => ref_dec_g k t' end) kvs ;; Ok (VList r)
+          | VStr s => ref_dec_str_g (List.length E) t s
           | _ => Exn XTypeError end
       | SSet fr t' =>
           match d with
           | VList l | VTuple l | VSet _ l =>
-              r <- mapM (fun x => ref_dec x t') l ;;
+              r <- mapM (fun x => ref_dec_g x t') l ;;
               if forallb hashable r then Ok (VSet fr (set_of_list r)) else Exn XTypeError
-          | VDict kvs => r <- mapM (fun p => match p with (k, _) => ref_dec k t' end) kvs ;;
+          | VDict kvs => r <- mapM (fun p => match p with (k, _) => ref_dec_g k t' end) kvs ;;
               if forallb hashable r then Ok (VSet fr (set_of_list r)) else Exn XTypeError
-          | VStr s => ref_dec_str (List.length E) t s
+          | VStr s => ref_dec_str_g (List.length E) t s
           | _ => Exn XTypeError end
       | STupleVar t' =>
           match d with
-          | VList l | VTuple l | VSet _ l => r <- mapM (fun x => ref_dec x t') l ;; Ok (VTuple r)
-          | VDict kvs => r <- mapM (fun p => match p with (k, _) => ref_dec k t' end) kvs ;; Ok (VTuple r)
-          | VStr s => ref_dec_str (List.length E) t s
+          | VList l | VTuple l | VSet _ l => r <- mapM (fun x => ref_dec_g x t') l ;; Ok (VTuple r)
+          | VDict kvs => r <- mapM (fun p => match p with (k, _) => ref_dec_g k t' end) kvs ;; Ok (VTuple r)
+          | VStr s => ref_dec_str_g (List.length E) t s
           | _ => Exn XTypeError end
       | STupleFix ts =>
           match d with
@@ -728,17 +1008,32 @@ Section Run.
                       match ts, l with
                       | [], _ => Ok []
                       | _ :: _, [] => none_tail_t ts
-                      | t' :: ts', x :: l' => y <- ref_dec x t' ;; ys <- go ts' l' ;; Ok (y :: ys)
+                      | t' :: ts', x :: l' => y <- ref_dec_g x t' ;; ys <- go ts' l' ;; Ok (y :: ys)
                       end) ts l ;;
               Ok (VTuple r)
-          | VStr s => ref_dec_str (List.length E) t s
+          | VStr s => ref_dec_str_g (List.length E) t s
           | _ => r <- none_tail_t ts ;; Ok (VTuple r)
           end
-      | SDict kt vt =>
+      | STupleU pre mid post =>
+          match d with
+          | VList l | VTuple l =>
+              r <- tu_ref (fun (t': sty) (dx: sty -> res pv) => dx t') none_tail_t (map (fun x => ref_dec_g x) l) pre mid post ;;
+              Ok (VTuple r)
+          | VStr s => ref_dec_str_g (List.length E) t s
+          | _ =>
+              (* not subscriptable: only constant positions never index the value *)
+              r <- tu_walk (fun (t': sty) (dx: sty -> res pv) => dx t') const_ty None
+                     (tu_plan (List.length pre) (List.length post)) pre post
+                     (match mid with
+                      | STupleFix ts => mid_fix (fun (t': sty) (dx: sty -> res pv) => dx t') const_ty none_tail_t ts
+                      | _ => fun _ => Exn XTypeError end) ;;
+              Ok (VTuple r)
+          end
+      | SDict kt vt | SMap kt vt =>
           match d with
           | VDict kvs =>
               r <- mapM (fun p => match p with (k, x) =>
-                                    k' <- ref_dec k kt ;; x' <- ref_dec x vt ;;
+                                    k' <- ref_dec_g k kt ;; x' <- ref_dec_g x vt ;;
                                     if hashable k' then Ok (k', x') else Exn XTypeError end) kvs ;;
               Ok (VDict (dict_of_pairs r))
           | _ => Exn XAttributeError end
@@ -750,7 +1045,7 @@ Section Run.
               match d with
               | VDict kvs =>
                   let entries : list (pv * (pv * (sty -> res pv))) :=
-                      map (fun p => match p with (key, x) => (key, (x, ref_dec x)) end) kvs in
+                      map (fun p => match p with (key, x) => (key, (x, ref_dec_g x)) end) kvs in
                   r <- (fix go (fds: list sfield) : res (list (string * pv)) :=
                           match fds with
                           | [] => Ok []
@@ -770,7 +1065,7 @@ Section Run.
                               tl <- go rest ;; Ok ((f.(sf_name), y) :: tl)
                           end) k.(sc_fields) ;;
                   Ok (VObj c r)
-              | VStr s => ref_dec_str (List.length E) t s
+              | VStr s => ref_dec_str_g (List.length E) t s
               | _ => Exn XValueError
               end
           end
@@ -783,10 +1078,10 @@ Section Run.
           | Some k =>
               match d with
               | VList l | VTuple l =>
-                  r <- nt_items (fun f x => ref_dec x f.(sf_ty)) konst_t
+                  r <- nt_items (fun f x => ref_dec_g x f.(sf_ty)) konst_t
                                 (nt_exhausted (has_default k.(sc_fields))) k.(sc_fields) l ;;
                   Ok (VNT c r)
-              | VStr s => ref_dec_str (List.length E) t s
+              | VStr s => ref_dec_str_g (List.length E) t s
               | _ => r <- nt_tail konst_t (fun _ => Exn XTypeError) k.(sc_fields) ;; Ok (VNT c r)
               end
           end
@@ -798,12 +1093,23 @@ Section Run.
               match d with
               | VDict kvs =>
                   let entries : list (pv * (sty -> res pv)) :=
-                      map (fun p => match p with (key, x) => (key, ref_dec x) end) kvs in
+                      map (fun p => match p with (key, x) => (key, ref_dec_g x) end) kvs in
                   r <- td_go (fun f dx => dx f.(sf_ty)) konst_t XKeyError
                              entries (td_order k.(sc_fields)) ;;
                   Ok (VDict r)
               | _ => td_nondict konst_t k.(sc_fields)
               end
           end
+      | SBox b t' =>
+          (* the canonical concrete class built from the converted list / dict *)
+          r <- on_t t' ;; Ok (box_val b r)
       end.
+  End Mode.
 End Run.
+
+(* the documented reference and the reading the generated code implements *)
+Notation ref_dec E P := (ref_dec_g E P true).
+Notation ref_dec_l E P := (ref_dec_g E P false).
+Notation ref_dec_str E P := (ref_dec_str_g E P true).
+Notation ref_dec_str_l E P := (ref_dec_str_g E P false).
+
